@@ -124,6 +124,8 @@ def layer_instances(tree: str, tier: str) -> list[LayerSpec]:
 def instances(tier: str) -> list[dict]:
     out = [{"part": "kernel", "module": "vf.kernels.k14", "name": k, "tier": tier} for k in kernel_names("vf.kernels.k14")]
     out.append({"part": "kernel", "module": "vf.kernels.k17", "name": "label_one_alias", "tier": tier})
+    # the hierarchy itself (which decides every 'sub module of') is derived from names by get_parent_modules
+    out.append({"part": "kernel", "module": "vf.kernels.k02", "name": "parent_modules", "tier": tier})
     trees = ["T4", "T5a"] if tier == "quick" else ["T4", "T5a", "T5b", "T5c", "T5d"]
     for t in trees:
         specs = rule_instances(t, tier)
@@ -133,6 +135,14 @@ def instances(tier: str) -> list[dict]:
             out.append({"part": "rule", "tree": t, "spec": s.as_json(), "cap": CAPS[tier]})
         for s in layer_instances(t, tier):
             out.append({"part": "layer", "tree": t, "spec": s.as_json(), "cap": CAPS[tier]})
+    # second adversarial naming (a package named like a part of the package directly above it) on trees of depth >= 3
+    for t in ["T4n"] if tier == "quick" else ["T4n", "T5c", "T5a", "T5b"]:
+        specs = rule_instances(t, tier)
+        specs = [s for s in specs if s.anything or s.s_kind == "sub" or s.o_kind == "sub" or len(s.subjects) > 1][:: (3 if tier == "quick" else 2)]
+        for s in specs:
+            out.append({"part": "rule", "tree": t, "spec": s.as_json(), "naming2": "adv2", "cap": CAPS[tier]})
+        for s in layer_instances(t, tier)[:: (4 if tier == "quick" else 1)]:
+            out.append({"part": "layer", "tree": t, "spec": s.as_json(), "naming2": "adv2", "cap": CAPS[tier]})
     return out
 
 
@@ -140,7 +150,7 @@ def label_of(i: dict) -> str:
     if i["part"] == "kernel":
         return f"kernel {i['name']}"
     spec = RuleSpec.from_json(i["spec"]) if i["part"] == "rule" else LayerSpec.from_json(i["spec"])
-    return f"{i['part']} {i['tree']}: {spec.label()}"
+    return f"{i['part']} {i['tree']}{'/' + i['naming2'] if i.get('naming2') else ''}: {spec.label()}"
 
 
 # ---------------------------------------------------------------------------------------------------
@@ -166,6 +176,7 @@ def work(inst: dict) -> dict:
     label = label_of(inst)
     res = {"label": label, "errors": [], "violations": [], "replays": 0, "paths": 0, "forks": 0, "explore_s": 0.0, "functions": set()}
     sides = []
+    N2 = inst.get("naming2", "adv")
     for naming in (N1, N2):
         nodes = concrete(tree, naming)
         arch = SymArch(nodes, tag=naming)
@@ -206,7 +217,7 @@ def work(inst: dict) -> dict:
         res["errors"].append(f"solver unknown on {label}")
     elif st == "sat":
         aedges = [(inv1[x], inv1[y]) for x, y in a1.model_edges(model)]
-        payload = {"kind": part, "tree": tree, "spec": inst["spec"], "edges": [list(e) for e in aedges], "label": label}
+        payload = {"kind": part, "tree": tree, "spec": inst["spec"], "edges": [list(e) for e in aedges], "label": label, "naming2": N2}
         ok, text, detail = replay_detail(payload)
         res["replays"] += 2
         if ok:
@@ -214,7 +225,7 @@ def work(inst: dict) -> dict:
         else:
             payload["observed"] = detail
             payload["text"] = text
-            payload["signature"] = {"part": part, "tree": tree, "spec": inst["spec"]}
+            payload["signature"] = {"part": part, "tree": tree, "spec": inst["spec"], "naming2": N2}
             res["violations"].append(payload)
     if sum1.sample_paths:
         a, o = sum1.sample_paths[0]
@@ -230,6 +241,7 @@ def replay_detail(payload: dict):
     aspec = RuleSpec.from_json(payload["spec"]) if part == "rule" else LayerSpec.from_json(payload["spec"])
     ren = _ren_spec if part == "rule" else _ren_layers
     outs = []
+    N2 = payload.get("naming2", "adv")
     for naming in (N1, N2):
         nodes = concrete(tree, naming)
         edges = [(rename(x, naming), rename(y, naming)) for x, y in payload["edges"]]
@@ -257,7 +269,7 @@ def run(tier: str, only: str | None = None) -> int:
     rep.bounds = {
         "kernels": "well-formed dotted names over {a,b,.}, <= 5 chars (two-layer lookup <= 4)",
         "trees": sorted({i["tree"] for i in items if "tree" in i}),
-        "namings": {N1: NAMINGS[N1], N2: NAMINGS[N2]},
+        "namings": {N1: NAMINGS[N1], N2: NAMINGS[N2], "adv2": NAMINGS["adv2"]},
         "rules": "12 shapes x named/sub filters x every ordered module pair (related included), 'anything' aliases, two-subject batches incl. batched import_anything, two-object batches; two-layer name-listed layer rules (14 shapes)",
         "path_cap_per_summary": CAPS[tier],
     }
